@@ -1279,11 +1279,11 @@ def oracle_combos(case):
 
 CLAUSES = [
     Clause('exact', oracle_exact, g3.systems, quick=8500, thorough=330000,
-           min_share={'nt': 0.3, 'has_pairs': 0.3, 'ghost_only_bin': 0.35, 'image_pair': 0.15, 'grew_rows': 0.08,
-                      'bin_grew': 0.025, 'pair_exactly_at_cutoff': 0.012, 'pbc_mixed': 0.3, 'rotated': 0.18,
-                      'tilted': 0.2, 'cutoff_gt_width': 0.04, 'own_image_within_cutoff': 0.015, 'kind_targeted': 0.1,
-                      'kind_binedge': 0.07, 'on_face': 0.2, 'pos_readonly_stored': 0.09, 'pos_noncontiguous_stored': 0.04,
-                      'pos_sequence': 0.035, 'scale_1': 0.25, 'scaled': 0.2, 'scale_1e-10': 0.06, 'scale_le_1e-8': 0.12,
+           min_share={'nt': 0.3, 'has_pairs': 0.3, 'ghost_only_bin': 0.35, 'image_pair': 0.15, 'grew_rows': 0.071,
+                      'bin_grew': 0.025, 'pair_exactly_at_cutoff': 0.012, 'pbc_mixed': 0.3, 'rotated': 0.12,
+                      'tilted': 0.2, 'cutoff_gt_width': 0.04, 'own_image_within_cutoff': 0.015, 'kind_targeted': 0.086,
+                      'kind_binedge': 0.062, 'on_face': 0.2, 'pos_readonly_stored': 0.088, 'pos_noncontiguous_stored': 0.04,
+                      'pos_sequence': 0.035, 'scale_1': 0.24, 'scaled': 0.2, 'scale_1e-10': 0.059, 'scale_le_1e-8': 0.11,
                       'scale_large': 0.04, 'exact_scaled': 0.025,
                       # cross-pollination round (below half of the lowest share seen at seeds 1-4, runs cut short by the wall budget included)
                       'kind_near': 0.047, 'near_cut': 0.065, 'near_cut_le_1e-6': 0.037, 'near_cut_inside': 0.023, 'near_cut_outside': 0.043,
@@ -1294,19 +1294,19 @@ CLAUSES = [
            desc='every list equals the independent reference {j != i : shortest of the 27 candidates < cutoff}; strictly '
                 'ascending, no self entry, symmetric, coord = length = first column; for every input form'),
     Clause('sizes', oracle_sizes, sizes_cases, quick=1700, thorough=55000,
-           min_share={'nt': 0.15, 'grew_twice': 0.1, 'size_one': 0.2, 'pos_readonly_stored': 0.09,
-                      'scale_1': 0.25, 'scaled': 0.2, 'scale_1e-10': 0.06, 'scale_le_1e-8': 0.11, 'scale_large': 0.04,
+           min_share={'nt': 0.14, 'grew_twice': 0.1, 'size_one': 0.2, 'pos_readonly_stored': 0.088,
+                      'scale_1': 0.24, 'scaled': 0.2, 'scale_1e-10': 0.059, 'scale_le_1e-8': 0.11, 'scale_large': 0.04,
                       'pos_bigendian': 0.02, 'sizes_narrow_int': 0.1},
            desc='identical lists for default and drawn initialsize/deltasize (both, and each alone), and for the default again afterwards'),
     Clause('file', oracle_file, file_cases, quick=1700, thorough=38000,
            min_share={'nt': 0.3, 'ragged': 0.15, 'has_empty_row': 0.25, 'two_digit_ids': 0.08, 'pos_readonly_stored': 0.07,
-                      'scale_1': 0.25, 'scaled': 0.2, 'scale_1e-10': 0.06, 'scale_le_1e-8': 0.12, 'scale_large': 0.04,
+                      'scale_1': 0.24, 'scaled': 0.2, 'scale_1e-10': 0.059, 'scale_le_1e-8': 0.11, 'scale_large': 0.04,
                       'pos_bigendian': 0.034, 'sizes_narrow_int': 0.09},
            desc='dump then NeighborList(model=path | open binary stream | BytesIO | content string) and System.neighborlist(model=): '
                 'identical lists; second dump identical text'),
     Clause('api', oracle_api, api_cases, quick=1500, thorough=22000,
            min_share={'nt': 0.28, 'via_function': 0.12, 'via_build': 0.1, 'positional_arguments': 0.17, 'pos_readonly_stored': 0.07,
-                      'scale_1': 0.25, 'scaled': 0.2, 'scale_1e-10': 0.06, 'scale_le_1e-8': 0.12, 'scale_large': 0.04,
+                      'scale_1': 0.24, 'scaled': 0.2, 'scale_1e-10': 0.059, 'scale_le_1e-8': 0.11, 'scale_large': 0.04,
                       'pos_bigendian': 0.037, 'sizes_narrow_int': 0.09},
            desc='System.neighborlist, nlist(), NeighborList.build (positional and keyword) give the same lists as NeighborList(system=, cutoff=); system untouched'),
     Clause('history', oracle_history, history_cases, quick=1200, thorough=30000,
@@ -1317,7 +1317,7 @@ CLAUSES = [
            desc='one NeighborList object through build / load / dump-load / in-place system edits, read in varying orders: after every '
                 'step it equals the independent reference for what it was last given; an untouched second list stays as it was'),
     Clause('ledger', oracle_ledger, ledger_cases, quick=1100, thorough=30000,
-           min_share={'nt': 0.3, 'ledger': 0.4, 'ledger_mixed_counts': 0.14, 'ledger_ge_4': 0.18, 'ledger_after_caller_change': 0.07,
+           min_share={'nt': 0.3, 'ledger': 0.4, 'ledger_mixed_counts': 0.14, 'ledger_ge_4': 0.16, 'ledger_after_caller_change': 0.07,
                       'loaded_different_alive': 0.021, 'unread_then_mutated': 0.012, 'again_after_overwrite': 0.085, 'overwrote_array': 0.028,
                       'overwrote_object': 0.06, 'edit_handed': 0.038, 'edit_handed_aliased': 0.032, 'repeated_call': 0.053, 'op_rebuild': 0.042,
                       'read_at_the_end': 0.14, 'pos_bigendian': 0.07, 'pos_readonly_stored': 0.1, 'scaled': 0.27},
